@@ -56,6 +56,8 @@ pub struct Profile {
     pub fast_mint_permille: u64,
     /// per-mille chance of a payment that fans out into ~250 coins at one address (counts beyond one-byte encodings)
     pub crowd_permille: u64,
+    /// per-mille chance (per block of `run_history`) of a block with 65-200 transactions
+    pub big_block_permille: u64,
 }
 
 impl Default for Profile {
@@ -78,6 +80,7 @@ impl Default for Profile {
             degenerate_permille: 0,
             fast_mint_permille: 0,
             crowd_permille: 0,
+            big_block_permille: 0,
         }
     }
 }
@@ -1688,6 +1691,33 @@ pub fn run_history(w: &mut World, blocks: usize, mons: &mut [&mut dyn Monitor]) 
     for _ in 0..blocks {
         if w.dead {
             return;
+        }
+        if w.profile.big_block_permille > 0 && w.rng.chance(w.profile.big_block_permille, 1000) {
+            // a big block: batches of up to 48 members until the block holds a number of transactions around the
+            // multiples of 64 (sizes at which chunked or sliced processing would change behaviour)
+            let target = *w.rng.pick(&[65usize, 66, 70, 100, 127, 129, 130, 191, 200]);
+            let saved = w.profile.clone();
+            w.profile.max_batch = 48;
+            w.profile.hostile = 0;
+            w.profile.faucet = saved.faucet.max(40);
+            w.profile.crowd_permille = 0;
+            let mut tries = 0;
+            while w.block_txs.len() < target && tries < 24 && !w.dead {
+                tries += 1;
+                w.profile.max_batch = (target - w.block_txs.len()).clamp(1, 48);
+                let (txs, labels) = w.gen_batch();
+                if txs.is_empty() {
+                    continue;
+                }
+                let ev = w.apply_batch(txs, labels);
+                for m in mons.iter_mut() {
+                    m.on_batch(w, &ev);
+                }
+            }
+            w.profile = saved;
+            if w.dead {
+                return;
+            }
         }
         let nb = w.rng.usize(4);
         for _ in 0..nb {
